@@ -7,6 +7,14 @@ HERE = os.path.dirname(os.path.abspath(__file__))
 
 # property -> (level category, engine/world, technique, level text, level note)
 CHECKS = {
+ "C01": ("exploration", "CHAIN+FORGE",
+   "deterministic simulation with a Byzantine block forger: seeded validator sets, protocol tables and real chains (look-back state from the real block-building path); by-construction labelled forgeries (legitimate weight below quorum, compensated with exactly one class of illegitimate material) and positive controls offered to five real verifier paths; independent quorum oracle",
+   "Every forgery must be rejected on VerifyHeader, VerifySeal, VerifySideChainHeader and both InsertChain paths (a verifier crash counts as not rejected); every control (honest block, boundary-at-quorum, super-quorum) accepted. 36 forgery kinds. Honest statement of fit: the acceptance function has no schedule in it; the simulation contributes the Byzantine party and real look-back state. Sampling over validator sets, tables and chain lengths.",
+   "Quorum = floor(T*685/1000) with T from the protocol table in force, never from the header or OverThreshold. Two known findings (zero-seat proposer: repair blocked by an existing test; rogue BLS key: needs proof of possession). Certificate sections of certificate rounds not reached (ACoCHTFrequency constant)."),
+ "C17": ("exploration", "CHAIN",
+   "seeded deterministic simulation of real builder, importer and rival nodes (synctest bubble, forge consensus) with history-level fault injection on transactions and blocks (resubmission before/after inclusion/reorg/restart, wrong-network and high-s twins, single-field mutations, byte corruption, Byzantine proposers force-including refused transactions); registry-based history oracle that re-derives every sender independently",
+   "Authenticity, at-most-once, nonce sequence and exact charge are evaluated on every node's canonical chain after every event against a registry of everything the simulator signed; senders are re-derived with plain secp256k1 recovery over a preimage computed by the harness. Sampling, not proof.",
+   "The 'any field change alters the sender' clause is only sampled (9 single-field mutations + byte corruption). One known finding: SSTORE-refund transactions are charged post-refund while receipts/header carry pre-refund gas (needs a version-gated consensus change)."),
  "C20": ("exploration", "POOL",
    "seeded simulation of the real core.TxPool in a synctest bubble with a schedule gate (hook H4) on its background reorg worker, so that every foreground/background interleaving is a seeded choice; invariant oracles over the exported views at every quiescent point",
    "Seeded search over operation sequences (local/remote adds of valid/underpriced/replacing/gapped/unaffordable/duplicate transactions, head changes incl. reorg-shaped resets that re-inject dropped transactions, clock jumps, SetGasPrice) and runReorg/foreground interleavings. Views must agree with each other, pending must be gap-free/affordable from the head state's nonce, queued above, limits as documented in the TxPoolConfig comments (locals exempt). Sampling, not proof.",
@@ -39,7 +47,7 @@ CHECKS = {
    "seeded deterministic simulation of the real download queue and peer bookkeeping inside a synctest bubble: the simulator plays header processor, fetcher, remote peers (complete/partial/empty/wrong/reordered/duplicate/unsolicited/stalled), expirer, dropper, importer and clock one call at a time; history oracle on Results plus pool census after every call; bounded-liveness quiet phase",
    "Seeded search over interleavings and peer fault sequences on the real queue (full and fast sync). Results must be gap-free, repeat-free, in order from the origin, each with a body matching the header's tx root, and nothing is released for a block never honestly delivered; after faults stop and one honest peer keeps answering, the range completes within a generous step bound. Sampling, not proof.",
    "Not driven: Downloader.Synchronise goroutine machinery, the real PeerSet (map-order), you/fetcher, header skeleton, light sync. Revoke/Cancel are driven per their doc comments (no production caller in this tree)."),
- "C03": ("exploration", "NET(+VOTER)",
+ "C03": ("exploration", "VOTER+NET",
    "deterministic simulation: real consensus engines under seeded schedules and faults; shadow tally of every delivered vote frame per node as reference model; every announced commit re-verified by the other nodes' real import path",
    "Seeded search over schedules/fault sequences of the whole engine. The simulator knows exactly which vote frames it delivered to which node and keeps a shadow tally (sender -> verified weight per (round, index, kind, block)); a precommit signed without a delivered prevote quorum for exactly that block, a commit the node's own chain or another honest node rejects, or two commits at one height are violations. Sampling, not proof.",
    "Trusts: the weight carried in a vote frame that the real engine accepted (sortition proofs are verified by the engine itself before the frame counts; the VOTER part re-verifies them independently); quorum = floor(0.685*committee size) computed from the protocol table, not from OverThreshold."),
